@@ -5,7 +5,7 @@
    (association list label -> manifest with its ordered ingredient references):
      referenced_top  = get_claim_referenced_manifests  (path + memo on entry + depth test on the path)
      checks_top      = ingredient_checks               (depth counter + visited set, one verify_claim per reference)
-     binding_top     = get_hash_binding_manifest       (visited set, no depth limit)
+     binding_top     = get_hash_binding_manifest       (visited set + depth test on its size)
    Each is fuelled and instrumented with a step counter (calls + loop iterations) and the maximal recursion depth.
    |V| = n_manifests st, |E| = n_refs st (all ingredient references in the store).  The theorems hold for every
    store, every ingredient order, both error behaviours of the status tracker ([stop]). *)
@@ -99,26 +99,28 @@ Theorem c19_checks_bounds :
     cs_maxdepth (fst r) <= MAX_INGREDIENT_DEPTH /\ length (cs_visited (fst r)) <= n_manifests st + 1.
 Proof. exact checks_top_bounds. Qed.
 
-(* ---- hard-binding search: terminates (cyclic parentOf chains included), linear steps, and whatever it returns
-        is a standard manifest carrying a hard binding (so a cycle of update manifests yields None) ... *)
+(* ---- hard-binding search (with the depth test on `visited` of fix c381c9a00): terminates (cyclic parentOf chains
+        included), linear steps, recursion depth bounded by the limit like the other walks, and whatever it returns is a
+        standard manifest carrying a hard binding (so a cycle of update manifests yields None) *)
 Theorem c19_binding_bounds :
   forall st root,
     let r := binding_top st root in
-    b_fuel_out r = false /\ b_steps r <= 1 + n_manifests st + n_refs st /\ b_depth r <= 1 + n_manifests st /\
+    b_fuel_out r = false /\ b_steps r <= 1 + n_manifests st + n_refs st /\
+    b_depth r <= MAX_INGREDIENT_DEPTH /\ b_depth r <= 1 + n_manifests st /\
     (forall l, b_result r = Some l -> exists ml, lookup st l = Some ml /\ m_update ml = false /\ m_hashbind ml = true).
 Proof. exact binding_top_bounds. Qed.
 
-(* ... but its recursion depth is bounded by |V| only (strongest true statement, above), NOT by MAX_INGREDIENT_DEPTH:
-   "recursion depth <= limit for every walk" is refuted by the hard-binding fan, which the referenced-walk accepts
-   at depth 3.  Replayed on the implementation by ./check (finding F-BINDING-DEPTH: stack overflow). *)
-Theorem c19_binding_depth_refuted :
-  exists st root,
-    snd (referenced_top st false root) = None /\ rs_maxdepth (fst (referenced_top st false root)) = 3 /\
-    b_result (binding_top st root) <> None /\ MAX_INGREDIENT_DEPTH < b_depth (binding_top st root).
-Proof.
-  exists (deep_binding_store (MAX_INGREDIENT_DEPTH + 10)), 0%N.
-  destruct binding_depth_witness as [A [B [C D]]]. repeat split; try assumption. rewrite C. discriminate.
-Qed.
+(* the hard-binding fan that overflowed the stack before the fix (F-BINDING-DEPTH: the referenced-walk accepts it at
+   depth 3, the search used to follow limit+10 parentOf links) now stops at depth = limit with no binding manifest;
+   a fan with limit-1 update manifests still finds its binding manifest.  Replayed on the implementation by ./check. *)
+Theorem c19_binding_deep_fan_bounded :
+  let st := deep_binding_store (MAX_INGREDIENT_DEPTH + 10) in
+  snd (referenced_top st false 0%N) = None /\
+  rs_maxdepth (fst (referenced_top st false 0%N)) = 3 /\
+  b_result (binding_top st 0%N) = None /\
+  b_depth (binding_top st 0%N) = MAX_INGREDIENT_DEPTH /\
+  b_result (binding_top (deep_binding_store (MAX_INGREDIENT_DEPTH - 1)) 0%N) = Some (N.of_nat MAX_INGREDIENT_DEPTH).
+Proof. exact binding_deep_fan_bounded. Qed.
 
 (* non-vacuity: a diamond with a dangling reference and a cycle behind it — hypotheses are satisfiable and the
    model computes the expected classes *)
